@@ -425,6 +425,67 @@ def exc_text(e, limit=300):
         return f"{type(e).__name__}: {e.args!r}"[:limit]
 
 
+_COMMUTATIVE = None
+_CANON_MEMO = {}
+
+
+def canon(t):
+    """simplified term with the operands of commutative operators in a canonical order (by their printed form).
+    z3's simplifier orders such operands by internal term ids, which depend on what the process did before: printed
+    terms would differ from run to run. Sound: only operands of +, *, and, or, =, distinct, fp.add, fp.mul, fp.eq,
+    fp.min/max are permuted."""
+    global _COMMUTATIVE
+    if _COMMUTATIVE is None:
+        _COMMUTATIVE = {z3.Z3_OP_ADD, z3.Z3_OP_MUL, z3.Z3_OP_AND, z3.Z3_OP_OR, z3.Z3_OP_EQ, z3.Z3_OP_DISTINCT, z3.Z3_OP_IFF}
+        _FP2 = {z3.Z3_OP_FPA_ADD, z3.Z3_OP_FPA_MUL}
+        _COMMUTATIVE_FP = _FP2
+        globals()["_COMMUTATIVE_FP"] = _FP2
+    t = z3.simplify(t)
+    return _canon(t)
+
+
+def _canon(t):
+    if not z3.is_app(t) or t.num_args() == 0:
+        return t
+    key = t.get_id()
+    hit = _CANON_MEMO.get(key)
+    if hit is not None and z3.eq(hit[0], t):
+        return hit[1]
+    ch = [_canon(c) for c in t.children()]
+    k = t.decl().kind()
+    if k in _COMMUTATIVE:
+        ch = sorted(ch, key=_sort_key)
+    elif k in globals()["_COMMUTATIVE_FP"] and len(ch) == 3:
+        ch = [ch[0]] + sorted(ch[1:], key=_sort_key)
+    try:
+        out = t.decl()(*ch)
+    except z3.Z3Exception:
+        out = t
+    if len(_CANON_MEMO) > 200000:
+        _CANON_MEMO.clear()
+    _CANON_MEMO[key] = (t, out)
+    return out
+
+
+_KEY_MEMO = {}
+
+
+def _sort_key(t):
+    k = t.get_id()
+    hit = _KEY_MEMO.get(k)
+    if hit is not None and z3.eq(hit[0], t):
+        return hit[1]
+    s = t.sexpr()
+    if len(_KEY_MEMO) > 200000:
+        _KEY_MEMO.clear()
+    _KEY_MEMO[k] = (t, s)
+    return s
+
+
+def canon_sexpr(t):
+    return canon(t).sexpr()
+
+
 class LocalRaise:
     """outcome of a local path that raised (see Path.local_paths(catch=True))"""
 
